@@ -10,7 +10,7 @@ use super::*;
 mod spec;
 use spec::*;
 
-// vp: props=C15; tag=C15.huff.spec.table; kind=complete; tier=quick
+// vp: props=C15; tag=C15.huff.spec.table; kind=complete; tier=thorough
 // sanity of the oracle itself: SPEC_HUFF_TABLE_OK is evaluated by rustc at compile time (per-length symbol counts
 // 5:10 6:26 7:32 8:6 10:5 11:3 12:2 13:6 14:2 15:3 19:3 20:8 21:13 22:26 23:29 24:12 25:4 26:15 27:19 28:29 30:4,
 // Kraft sum == 2^30, EOS == 0x3fffffff, no code a prefix of another; the file does not even build otherwise);
@@ -35,7 +35,7 @@ fn c15_huff_spec_table_ok() {
 
 /// the code stored in a table entry, the way `put` consumes it: whole octets first, the last octet holds the
 /// remaining bit_count % 8 bits right-aligned (only its low bits are used)
-fn entry_code(e: &EncodeValue) -> u64 {
+const fn entry_code(e: &EncodeValue) -> u64 {
     let mut v: u64 = 0;
     let mut rest = e.bit_count;
     let mut i = 0;
@@ -48,9 +48,39 @@ fn entry_code(e: &EncodeValue) -> u64 {
     v
 }
 
+/// The whole-table comparison, evaluated by rustc's const evaluator when this module is compiled (the table and the
+/// oracle are both constants): index of the first entry of the encoder's HPACK_STRING that disagrees with the oracle
+/// in length, octet count or code bits; 256 = none.
+const fn encode_table_first_bad() -> usize {
+    let table = &HPACK_STRING;
+    let mut c = 0usize;
+    while c < 256 {
+        let e = &table[c];
+        if e.bit_count != SPEC_HUFF_LEN[c] as u32
+            || e.buffer.len() as u32 != (e.bit_count + 7) / 8
+            || entry_code(e) != SPEC_HUFF_CODE[c] as u64
+        {
+            return c;
+        }
+        c += 1;
+    }
+    256
+}
+const ENCODE_TABLE_FIRST_BAD: usize = encode_table_first_bad();
+
+// vp: props=C15,C14; tag=C15.huff.encode.table; kind=complete; tier=quick
+// all 256 entries of the encoder's table against spec_code in one cheap harness: the enumeration is done by rustc's
+// const evaluator on the real constants (above), Kani only looks at its result.  The same enumeration carried out
+// by CBMC itself is c15_huff_encode_table_q0..q3 (thorough tier, 15-40 s each).
+#[kani::proof]
+fn c15_huff_encode_whole_table() {
+    assert!(ENCODE_TABLE_FIRST_BAD == 256, "C15.huff.encode.table: an entry of the encoder table differs from the RFC 7541 App. B code");
+    kani::cover!(ENCODE_TABLE_FIRST_BAD == 256);
+}
+
 // all 256 entries of the encoder's HPACK_STRING table: bit_count == RFC length, exactly ceil(bit_count/8)
-// octets, and the bits are the canonical code of that symbol.  Concrete enumeration of constant data, in four
-// quarters only to stay inside the quick-tier budget (the whole table in one harness: 110 s).
+// octets, and the bits are the canonical code of that symbol.  Concrete enumeration of constant data by CBMC, in four
+// quarters (the whole table in one harness: 110 s); thorough tier, the quick tier has c15_huff_encode_whole_table.
 fn encode_table_range(lo: usize, hi: usize) {
     let table = &HPACK_STRING; // a `const`: materialised once here, not once per iteration
     let mut c = lo;
@@ -63,25 +93,25 @@ fn encode_table_range(lo: usize, hi: usize) {
     }
     kani::cover!(c == hi);
 }
-// vp: props=C15,C14; tag=C15.huff.encode.table; kind=complete; tier=quick
+// vp: props=C15,C14; tag=C15.huff.encode.table; kind=complete; tier=thorough
 #[kani::proof]
 #[kani::unwind(65)]
 fn c15_huff_encode_table_q0() {
     encode_table_range(0, 64);
 }
-// vp: props=C15,C14; tag=C15.huff.encode.table; kind=complete; tier=quick
+// vp: props=C15,C14; tag=C15.huff.encode.table; kind=complete; tier=thorough
 #[kani::proof]
 #[kani::unwind(65)]
 fn c15_huff_encode_table_q1() {
     encode_table_range(64, 128);
 }
-// vp: props=C15,C14; tag=C15.huff.encode.table; kind=complete; tier=quick
+// vp: props=C15,C14; tag=C15.huff.encode.table; kind=complete; tier=thorough
 #[kani::proof]
 #[kani::unwind(65)]
 fn c15_huff_encode_table_q2() {
     encode_table_range(128, 192);
 }
-// vp: props=C15,C14; tag=C15.huff.encode.table; kind=complete; tier=quick
+// vp: props=C15,C14; tag=C15.huff.encode.table; kind=complete; tier=thorough
 #[kani::proof]
 #[kani::unwind(65)]
 fn c15_huff_encode_table_q3() {
